@@ -443,7 +443,7 @@ func c08check(r *verifkit.Result, c *c08call, res *c08res, orc *c08oracle, u str
 		add("PEAlign/"+mode+"/score!=path-score"+iupac, "reported score %d but the path %v (isLeft=%v) scores %d under the end-gap-free scheme",
 			res.Score, res.Path, res.IsLeft, ps)
 	}
-	if !c.Fast {
+	ensure := func() {
 		if !orc.done {
 			orc.optL, orc.cntL = c08dp(c, qa, qb, true)
 			orc.optR, orc.cntR = c08dp(c, qa, qb, false)
@@ -455,6 +455,9 @@ func c08check(r *verifkit.Result, c *c08call, res *c08res, orc *c08oracle, u str
 				r.Count("oracle_dp_crosschecked_by_brute_force", 1)
 			}
 		}
+	}
+	if !c.Fast {
+		ensure()
 		opt := orc.optL
 		if orc.optR > opt {
 			opt = orc.optR
@@ -511,28 +514,29 @@ func c08check(r *verifkit.Result, c *c08call, res *c08res, orc *c08oracle, u str
 		leftGeom := a0 == 0 && b0+lb == len(u)  // A starts the fragment, B ends it
 		rightGeom := b0 == 0 && a0+la == len(u) // B starts the fragment, A ends it
 		if ovl >= 1 && (leftGeom || rightGeom) {
-			demand := false
-			if !c.Fast {
-				// true alignment must be THE unique optimum of the independent DP
-				tp := c08truePath(la, lb, d0)
-				tl := c08pathScore(c, qa, qb, tp, true)
-				tr := c08pathScore(c, qa, qb, tp, false)
-				opt := c08max(orc.optL, orc.optR)
-				demand = true
-				if orc.optL == opt && (tl != opt || orc.cntL != 1) {
-					demand = false
-				}
-				if orc.optR == opt && (tr != opt || orc.cntR != 1) {
-					demand = false
-				}
-				if demand {
-					r.Count("reassembly_demanded_exact", 1)
-				}
-			} else {
+			// The true alignment must be THE unique optimum of the independent DP: an aligner driven by
+			// the qualities is otherwise free to return another alignment (low-quality or repeated
+			// bases).  Fast mode aligns a window around the chosen diagonal only; every alignment of the
+			// window extends to an alignment of the reads with the same score, so the unique optimum of
+			// the whole is also the unique optimum of any window that contains it.
+			ensure()
+			tp := c08truePath(la, lb, d0)
+			tl := c08pathScore(c, qa, qb, tp, true)
+			tr := c08pathScore(c, qa, qb, tp, false)
+			opt := c08max(orc.optL, orc.optR)
+			demand := true
+			if orc.optL == opt && (tl != opt || orc.cntL != 1) {
+				demand = false
+			}
+			if orc.optR == opt && (tr != opt || orc.cntR != 1) {
+				demand = false
+			}
+			if c.Fast && demand {
+				// ... and the true offset must be the strict maximiser of the 4-mer diagonal score
 				demand = c08fourmerStrict(c.A, c.B, c.Rel, d0)
-				if demand {
-					r.Count("reassembly_demanded_fast", 1)
-				}
+			}
+			if demand {
+				r.Count("reassembly_demanded_"+mode, 1)
 			}
 			if demand && res.ConsSeq != u {
 				g := ":A-starts-first"
